@@ -23,12 +23,19 @@ Audit against tools/HARDENING.md (what the streams exercise; generator go/cmd/c0
 
 def _trivial(line, out):
     # a line says something about the bit set only if it prints an observation of a non-empty set or a search result
-    return out in ("0", "-", "c=0 m=- f=-1 l=-1 d=-")
+    return out in ("0", "-", "c=0 m=- f=-1 l=-1 d=-") or out.startswith("0 h=")
 
 
 def _tag(line, out):
     w = line.split(" ")
     op = w[0]
+    # arguments at the limit of Go's int (the checked-int model Model/BitSetMachine.lean is exercised where it matters)
+    if op in ("state", "clr", "clrr", "next", "prev", "nextclr", "prevclr"):
+        args = [int(x) for x in w[2:] if x.lstrip("-").isdigit()]
+        if any(a == (1 << 63) - 1 for a in args):
+            return op + ":at-MaxInt"
+        if any(a >= 1 << 62 for a in args):
+            return op + ":int-limit(>=2^62)"
     if op in ("setr", "clrr", "flipr") and len(w) == 4:
         s, e = int(w[2]), int(w[3])
         t = []
@@ -58,8 +65,11 @@ def _tag(line, out):
 
 def run(ctx):
     ctx.modelled += [
-        "BitSet storage is a List (BitVec 64), `set` an unbounded Int, indexes unbounded Nat: Go int overflow "
-        "(indexes >= 2^57) is not modelled; negative indexes exit the process by design and are outside the domain",
+        "BitSet storage is a List (BitVec 64), `set` an unbounded Int (C08.count_bounds: within [0, 64*len]), indexes "
+        "unbounded Nat in the value model; the driver ALSO executes every line with Go's 64-bit int made explicit "
+        "(Model/BitSetMachine.lean: every int expression of the source that can grow is checked against math.MaxInt and "
+        "would print `overflow`; C08.no_int_overflow*: it never wraps on a storage below 2^57 words, for arguments up to "
+        "math.MaxInt); negative indexes exit the process by design and are outside the domain",
         "the driver executes the HEAP model (Model/BitSetHeap.lean: slice headers into a heap of arrays, in-place writes "
         "vs make+copy exactly as the code, the caller's slices in the same heap, scribbled on / watched as the Go harness "
         "does); C08.heap_refines / no_aliasing prove it separated and equal to the value model after every session; "
@@ -67,7 +77,9 @@ def run(ctx):
         "object identity of *BitSet values (Clone returning a new pointer) is not modelled: registers A/B are names",
     ]
     ctx.assumptions += ["index >= 0 (validateBitSetIndex exits the process otherwise)",
-                        "no Go int overflow in index arithmetic",
+                        "len(b.data)*64 <= math.MaxInt (fewer than 2^57 words; kept by every history whose storing calls "
+                        "stay below index 2^61, C08.no_int_overflow_run; beyond it LastSet's `len<<6` wraps, "
+                        "C08.int_overflow_contrast)",
                         "indexes that are STORED stay below 2^20 + 64 (the storage is index/64 words; the list model is "
                         "quadratic in the number of words); calls that never allocate (State, Clear, ClearRange, the "
                         "searches) are driven up to math.MaxInt"]
